@@ -126,6 +126,7 @@ type Scenario struct {
 	Signal            string        `json:"signal"`
 	Cfg               CfgPlan       `json:"config"`
 	Clock             string        `json:"clock_mode"`
+	Policy            string        `json:"scheduling_policy"`
 	Unit              time.Duration `json:"time_unit_ns"`
 	NumCPU            int           `json:"queue_capacity_numcpu"`
 	HonourCtx         bool          `json:"downstream_honours_ctx"`
@@ -205,6 +206,7 @@ func genScenario(t *core.Tape, prop string, numCPU int) *Scenario {
 	if pct(t, core.Cfg, k.StallingPct) {
 		sc.Clock = "stalling"
 	}
+	sc.Policy = []string{"uniform", "sticky", "priority"}[t.Weighted(core.Cfg, 2, 1, 1)]
 	sc.HonourCtx = pct(t, core.Cfg, k.HonourCtxPct)
 	sc.Unit = c.Timeout
 	if sc.Unit == 0 {
